@@ -455,3 +455,35 @@ def equivalent(dfa, t):
                 seen[(na, nb)] = path + bytes([byte])
                 work.append((na, nb))
     return True, None, len(seen)
+
+
+def single_dfa(spec, pattern):
+    nfa = NFA()
+    start = nfa.new()
+    p = RegexParser(spec, nfa)
+    a, b = p.parse(pattern)
+    nfa.eps[start].add(a)
+    nfa.accept[b] = 0
+    return DFA(nfa, start)
+
+
+def dfa_equal(d1, d2):
+    """language equality of two DFAs; returns (True, None) or (False, shortest-ish witness bytes)"""
+    seen = {(0, 0): b''}
+    work = [(0, 0)]
+    while work:
+        a, b = work.pop(0)
+        path = seen[(a, b)]
+        acc_a = a >= 0 and d1.accept[a] is not None
+        acc_b = b >= 0 and d2.accept[b] is not None
+        if acc_a != acc_b:
+            return False, path
+        for byte in range(256):
+            na = d1.delta[a][byte] if a >= 0 else -1
+            nb = d2.delta[b][byte] if b >= 0 else -1
+            if na < 0 and nb < 0:
+                continue
+            if (na, nb) not in seen:
+                seen[(na, nb)] = path + bytes([byte])
+                work.append((na, nb))
+    return True, None
